@@ -148,6 +148,15 @@ static void usage(int exitCode=1) {
   ::exit(exitCode);
 }
 
+/// Compute the hash which identifies what a command executes: its command line
+/// and, when it uses a response file, the content of that file (as Ninja does).
+static CommandSignature getCommandHash(const ninja::Command* command) {
+  CommandSignature hash(command->getCommandString());
+  if (!command->getRspFile().empty())
+    hash = hash.combine(command->getRspFileContent());
+  return hash;
+}
+
 namespace {
 
 /// Result value that is computed by the rules for input and command files.
@@ -1141,7 +1150,7 @@ buildCommand(BuildContext& context, ninja::Command* command) {
       //
       // FIXME: Is it right to bring this up-to-date when one of the inputs
       // indicated a failure? It probably doesn't matter.
-      auto commandHash = CommandSignature(command->getCommandString());
+      auto commandHash = getCommandHash(command);
       if (command->getRule() == context.manifest->getPhonyRule()) {
         // Get the result.
         BuildValue result = computeCommandResult(commandHash);
@@ -1365,7 +1374,7 @@ buildCommand(BuildContext& context, ninja::Command* command) {
           //
           // We always restat the output, but we honor Ninja's restat flag by
           // forcing downstream propagation if it isn't set.
-          auto commandHash = CommandSignature(command->getCommandString());
+          auto commandHash = getCommandHash(command);
           BuildValue resultValue = computeCommandResult(commandHash);
 
           // Remove response file.
@@ -1627,8 +1636,7 @@ static bool buildCommandIsResultValid(ninja::Command* command,
 
   // For non-generator commands, if the command hash has changed, recompute.
   if (!command->hasGeneratorFlag()) {
-    if (value.getCommandHash() != CommandSignature(
-          command->getCommandString()))
+    if (value.getCommandHash() != getCommandHash(command))
       return false;
   }
 
@@ -1661,7 +1669,7 @@ static bool selectCompositeIsResultValid(ninja::Command* command,
   // If the command's signature has changed since it was built, rebuild. This is
   // important for ensuring that we properly reevaluate the select rule when
   // it's incoming composite rule no longer exists.
-  if (value.getCommandHash() != CommandSignature(command->getCommandString()))
+  if (value.getCommandHash() != getCommandHash(command))
     return false;
 
   // Otherwise, this result is always valid.
